@@ -3,6 +3,7 @@ from .kernel import (ExprBuilder, Loc, access_path, bool_call_switches, subexprs
 from . import families as fam
 from . import life
 from . import sqe
+from . import c10
 
 EXPLANATION = (
     'Decides: (R1) PollingState::set_polling and ::wake each perform exactly one atomic read-modify-write '
@@ -392,9 +393,92 @@ def r5_enter_submits_all(r, facts):
     r.floor(1)
 
 
+def r6_enter_contract(r, facts):
+    """Shared::enter — the one place that blocks in the kernel — passes on what its callers decided.  C11 (a pending wake-up
+    turns the wait into `Some(ZERO)`), C03 and C04 (the kernel thread is woken for new submissions) rest on it:
+      * with `Some(timeout)` a timespec holding the timeout's seconds and nanoseconds is filled in and `args.ts` is its address,
+        on every path to the system call; the call gets `&args`, its size and IORING_ENTER_EXT_ARG (without which the kernel
+        ignores the argument and waits without limit);
+      * in kernel-thread mode IORING_ENTER_SQ_WAKEUP is added exactly on the edge where the shared flags word has
+        IORING_SQ_NEED_WAKEUP set (a sleeping poll thread is never told about new submissions otherwise)."""
+    f = facts.fn('io_uring::Shared::enter')
+    eb = ExprBuilder(f, multi='phi')
+    calls = [(loc, t) for loc, t in f.calls() if (t.get('callee') or '').endswith('io_uring_enter2') and not f.blocks[loc[0]]['cleanup']]
+    if not r.require(len(calls) == 1, 'enter/syscall', 'expected one io_uring_enter2 call in Shared::enter, found %d' % len(calls), f.where()):
+        return
+    cl, ct = calls[0]
+    # --- the timeout
+    some = [v for v in variant_edges(f, 'std::option::Option', 'Some') if not f.blocks[v['edge'][0]]['cleanup'] and v['si']['place']['l'] == 4 and not v['si']['place']['p']]
+    if r.require(len(some) >= 1, 'enter/timeout-test', 'the test of the timeout parameter was not found (unrecognised form)', f.where()):
+        start = [Loc(some[0]['edge'][1], 0)]
+        want = {'tv_sec': 'as_secs', 'tv_nsec': 'subsec_nanos'}
+        stores = {'tv_sec': [], 'tv_nsec': [], 'ts': []}
+        ts_locals = set()
+        for loc, s_ in f.assigns():
+            fl = [p_ for p_ in s_['lhs']['p'] if p_['k'] == 'field']
+            if not fl or f.blocks[loc[0]]['cleanup']:
+                continue
+            nm = fl[-1].get('name')
+            if nm in want and (fl[-1].get('adt') or '').endswith('timespec'):
+                e = eb.rvalue(s_['rv'])
+                ok = any(x[0] == 'call' and x[1].endswith('Duration::' + want[nm]) for x in subexprs(e))
+                r.require(ok, 'enter/timeout-value:%s' % nm, 'timespec.%s is filled with %s, not the timeout\'s %s()' % (nm, str(e)[:100], want[nm]), f.where(loc))
+                if ok:
+                    stores[nm].append(loc)
+                    ts_locals.add(s_['lhs']['l'])
+            elif nm == 'ts' and (fl[-1].get('adt') or '').endswith('io_uring_getevents_arg'):
+                e = eb.rvalue(s_['rv'])
+                refs = [x for x in subexprs(e) if x[0] == 'ref' and x[1][0] == 'local']
+                stores['ts'].append((loc, {x[1][1] for x in refs}))
+        ts_ok = [loc for loc, ls in stores['ts'] if ls & ts_locals]
+        for loc, ls in stores['ts']:
+            r.require(bool(ls & ts_locals), 'enter/timeout-pointer', 'args.ts is not the address of the timespec that holds the timeout', f.where(loc))
+        for nm, locs in (('tv_sec', stores['tv_sec']), ('tv_nsec', stores['tv_nsec']), ('ts', ts_ok)):
+            hit = f.forward_paths_hit(start, [cl], blockers=locs)
+            r.inst('timeout: %s set on every path from Some(timeout) to the system call: %s' % (nm, hit is None), f.where(cl))
+            r.require(hit is None, 'enter/timeout:%s' % nm, 'with a timeout the system call can be reached without %s set: the kernel waits without the limit the caller (or a pending wake-up) asked for' % ('args.ts' if nm == 'ts' else 'timespec.' + nm), f.where(cl))
+    # --- the call gets the argument
+    a = [eb.operand(x) for x in ct['args']]
+    ext = facts.const('io_uring::libc::IORING_ENTER_EXT_ARG')
+    has_ext = any(x[0] == 'const' and isinstance(x[1], int) and ext and x[1] & ext for y in a for x in subexprs(y))
+    r.inst('io_uring_enter2(.., flags | EXT_ARG: %s, &args, size)' % has_ext, f.where(cl))
+    r.require(has_ext, 'enter/ext-arg', 'IORING_ENTER_EXT_ARG is not passed: the kernel ignores the argument block (timeout) and waits without limit', f.where(cl))
+    arg_refs = [x for y in a for x in subexprs(y) if x[0] == 'ref' and x[1][0] == 'local' and (f.locals[x[1][1]]['ty'] or '').endswith('io_uring_getevents_arg')]
+    r.require(bool(arg_refs), 'enter/arg-pointer', 'the address of the io_uring_getevents_arg block is not passed to io_uring_enter2', f.where(cl))
+    # --- waking the kernel thread
+    need = facts.const('io_uring::libc::IORING_SQ_NEED_WAKEUP')
+    wake = facts.const('io_uring::libc::IORING_ENTER_SQ_WAKEUP')
+    tests = []
+    for b, blk in enumerate(f.blocks):
+        t = blk['term']
+        if blk['cleanup'] or t['k'] != 'switch':
+            continue
+        e = eb.operand(t['discr'])
+        if e[0] == 'bin' and e[1] in ('Ne', 'Eq') and e[2][0] == 'bin' and e[2][1] == 'BitAnd' and any(y[0] == 'const' and y[1] == need for y in (e[2][2], e[2][3])) \
+                and any(x[0] == 'call' and x[1] == 'io_uring::load_kernel_shared' for x in subexprs(e)):
+            vals = {int(v): tg for v, tg in t['targets']}
+            set_e = vals.get(1, t['otherwise']) if e[1] == 'Ne' else vals.get(0)
+            clr_e = vals.get(0) if e[1] == 'Ne' else vals.get(1, t['otherwise'])
+            tests.append((b, set_e, clr_e))
+    ors = [loc for loc, s_ in f.assigns() if s_['rv']['k'] == 'bin' and s_['rv'].get('op') == 'BitOr' and any(o.get('k') == 'const' and f.cval(o) == wake for o in (s_['rv']['a'], s_['rv']['b']))]
+    if r.require(len(tests) == 1 and ors, 'enter/sq-wakeup', 'the IORING_SQ_NEED_WAKEUP test / the IORING_ENTER_SQ_WAKEUP flag was not found in Shared::enter: a sleeping kernel poll thread is never woken for new submissions', f.where()):
+        b, set_e, clr_e = tests[0]
+        miss = f.forward_paths_hit([Loc(set_e, 0)], [cl], blockers=ors) if set_e is not None else (cl,)
+        r.inst('NEED_WAKEUP set => SQ_WAKEUP passed: %s' % (miss is None), f.where(f.term_loc(b)))
+        r.require(miss is None, 'enter/sq-wakeup', 'on the edge where the kernel thread asked to be woken (IORING_SQ_NEED_WAKEUP set) the system call is reached without IORING_ENTER_SQ_WAKEUP', f.where(f.term_loc(b)))
+        # the flag word tested is reached in kernel-thread mode
+        r.require(any(fam.last_field(eb.operand(f.term(b2)['discr'])) == 'kernel_thread' and f.edge_dominates((b2, tg), f.term_loc(b))
+                      for b2, tg in c10.controlling_switches(f, f.term_loc(b))), 'enter/sq-wakeup-mode', 'the wake-up test is not made in kernel-thread mode', f.where(f.term_loc(b)))
+    r.floor(5)
+
+
+
 def check(ctx):
     ctx.run('C11.R1', 'PollingState: one RMW each, truth table of set_polling/wake over the 2-bit state', r1_truth_table)
     ctx.run('C11.R2', 'Completions::poll brackets the blocking enter with set_polling(true/false); pending wake => zero timeout', r2_bracketing)
     ctx.run('C11.R3', 'Submissions::wake: message iff polling.wake(); MSG_RING to own fd; flushed by enter; single-issuer path', r3_sq_wake)
     ctx.run('C11.R4', 'wake only needs Arc<Shared>-owned state (harmless after the Ring is dropped)', r4_after_ring)
     ctx.run('C11.R5', 'Shared::enter submits everything queued (the wake message is not left behind other entries)', r5_enter_submits_all)
+    ctx.run('C11.R6', 'Shared::enter hands the timeout (timespec, args.ts, EXT_ARG) to the kernel on every path and wakes a sleeping kernel thread', r6_enter_contract)
+    from . import c18
+    ctx.run('C11.R7', 'Shared.single_issuer / kernel_thread are true exactly when the echoed flag is set (=C18.R4): wake() picks its path by them', lambda r, facts: c18.ring_lengths(r, facts, modes=True, floor=2, sq=False, cq=False))
